@@ -6,6 +6,7 @@ TS = "RsslVerif.Thm.C02Sem."
 TV = "RsslVerif.Thm.C02Vec."
 TD = "RsslVerif.Thm.C02Dup."
 TX = "RsslVerif.Thm.C02Text."
+TC = "RsslVerif.Thm.C02Call."
 # the text leg: the tree C02 reasons about reaches the user as text printed by rssl_formatter (Target::Msl).  Printing and
 # reading back is property C09's; its table obligations (re-extracted precedence / associativity / side tables of
 # format_subexpression, the parser's levels, fingerprints of the hand-modelled formatter functions) and its round-trip theorems
@@ -14,6 +15,9 @@ C09_CITED = ["tables_agree", "assoc_agrees", "ternary_level", "unary_tables_agre
              "roundtrip_expr_partial", "roundtrip_subexpr_partial", "roundtrip_xexpr_partial", "roundtrip_stmt_partial",
              "roundtrip_block_partial", "roundtrip_decl_partial", "negative_literal_binds_like_minus", "source_fingerprints"]
 TEXT_THEOREMS = ["right_nested_chain_regrouped_changes_meaning"]
+CALL_THEOREMS = ["user_call_arms_as_modelled", "binds_every_parameter_of_arm", "emitted_call_binds_every_parameter",
+                 "every_call_type_has_an_arm", "emitted_call_unchanged_without_globals", "object_counted_as_argument_drops_a_default",
+                 "emittedArgCount_eq"]
 DUP_THEOREMS = ["dup_sites_guarded", "guard_rows_are_ir_constructors", "repeatable_operand_is_pure_of_sound", "repeatable_operand_is_pure",
                 "struct_cast_meaning_kept", "struct_cast_clauses", "struct_cast_refuses_iff", "tested_operand_is_pure_of_sound",
                 "rem_assign_operands_are_pure", "wf_toD", "repeatable_operand_is_pure_ir_of_sound",
@@ -40,6 +44,12 @@ def nontrivial(req, obs):
     if f[0] == "C02.dup":
         # the module contains a cast to a struct and the exporter decided about it
         return len(f) > 2 and f[2] != "-" and obs.startswith(("casts ", "diagnostic "))
+    if f[0] == "C02.call":
+        # a call that leaves out a defaulted argument of a callee that receives a parameter for a global
+        return obs.startswith("calls ") and len(f) > 2 and any(
+            e.split(" ")[3].count("d") > 0 and int(e.split(" ")[4]) > 0
+            and len(e.split(" ")[3].replace("-", "")) + (1 if e.split(" ")[1] == "MethodExternal" else 0) > int(e.split(" ")[2])
+            for e in f[2].split(" ;; ") if len(e.split(" ")) == 5)
     if f[0] == "C02.vex":
         return obs.startswith("vast ") and "(" in obs[5:40]
     if f[0] == "C02.vfn":
@@ -55,7 +65,7 @@ def nontrivial(req, obs):
 
 
 def finding_key(req, obs, detail):
-    if req.startswith(("C02.gen\t", "C02.vfn\t", "C02.vex\t", "C02.dup\t")) and not obs and not detail:
+    if req.startswith(("C02.gen\t", "C02.vfn\t", "C02.vex\t", "C02.dup\t", "C02.call\t")) and not obs and not detail:
         # probe of vlib.shrink: failures of the semantic stream are keyed by their input, so a smaller failing input is welcome
         return req
     d = (detail or "")[5:]
@@ -186,6 +196,18 @@ def search(ctx):
                "arr[next(4)]++; r.x = arr[0] + arr[1] + arr[2] + arr[3];", "r.y = (i++ > 0) ? x : bump(x);", "r = max(r, x++) + min(bump(x), r);",
                "r = select(bool3(b, !b, b), r + (int3)(x++), (int3)bump(x));", "r[(i++) & 1] += bump(x);"]:
         out.append("C02.vfn\t%sint3 f(int x, int arr[4], inout int i, int3 v, int3 varr[2], bool b) { int3 r = v; %s return r + x + i; }\t-\t\t-\t-" % (pre, st))
+    # calls that leave out defaulted arguments of a callee that receives a threaded global: the three call types x 1 / 2 left out
+    cpre = "static int bias = 10;\\nint viaHelper(int d) { bias = bias + d; return bias; }\\n"
+    for decl, call in [
+        ("struct Acc { int total; int m(int v, int w = 3) { return (total * 3 + v) * 5 + w + bias; } };", "Acc a; a.total = x; return a.m(x);"),
+        ("struct Acc { int total; int m(int v = 1, int w = 2) { return (total * 3 + v) * 5 + w + bias; } };", "Acc a; a.total = x; return a.m();"),
+        ("struct Acc { int total; int m(int v = 1, int w = 2) { return (total * 3 + v) * 5 + w + viaHelper(1); } };", "Acc a; a.total = x; return a.m(x) + a.m();"),
+        ("struct Acc { int total; int m(int v, int w = 3, int u = bias) { return ((total * 3 + v) * 5 + w) * 7 + u; } int c(int x) { return m(x) + m(x, 4); } };",
+         "Acc a; a.total = x; return a.c(x) + a.m(x);"),
+        ("int fm(int v, int w = 3, int u = 4) { return (v * 5 + w) * 7 + u + bias; }", "return fm(x) + fm(x, 9);"),
+        ("struct Acc { int total; int m(inout int v, int w = 3) { v = v + 1; return (total * 3 + v) * 5 + w + bias; } };", "Acc a; a.total = x; int y = x; return a.m(y) + y;"),
+    ]:
+        out.append("C02.vfn\t%s%s\\nint f(int x) { %s }\t-\t\t-\t-" % (cpre, decl, call))
     return out
 
 
@@ -222,8 +244,8 @@ def custom_vec(ctx):
 
 SPEC = {
     "id": "C02",
-    "gens": ["UsageTables", "MslGenTables", "MslVecTables", "MslDupSites", "FmtTables", "ParseTables", "SyntaxTables"],
-    "lean_modules": ["RsslVerif.Thm.C02", "RsslVerif.Thm.C02Sem", "RsslVerif.Thm.C02Vec", "RsslVerif.Thm.C02Dup", "RsslVerif.Thm.C02Text",
+    "gens": ["UsageTables", "MslGenTables", "MslVecTables", "MslDupSites", "MslCallTables", "FmtTables", "ParseTables", "SyntaxTables"],
+    "lean_modules": ["RsslVerif.Thm.C02", "RsslVerif.Thm.C02Sem", "RsslVerif.Thm.C02Vec", "RsslVerif.Thm.C02Dup", "RsslVerif.Thm.C02Text", "RsslVerif.Thm.C02Call",
                      "RsslVerif.Thm.C09"],
     "theorems": [T + n for n in [
         "tables_as_modelled", "all_positions_descended", "implicit_names_agree",
@@ -233,7 +255,7 @@ SPEC = {
         "threaded_exactly_partial", "calculateLocal_wf", "closeProgram_ok", "threaded_exactly_program_partial",
         "mentions_calculateLocal", "threaded_exactly",
         "default_arguments_analysed", "global_initialisers_analysed"]] + [TS + n for n in SEM_THEOREMS] + [TV + n for n in VEC_THEOREMS] + [TD + n for n in DUP_THEOREMS]
-                + [TX + n for n in TEXT_THEOREMS] + ["RsslVerif.Thm.C09." + n for n in C09_CITED],
+                + [TX + n for n in TEXT_THEOREMS] + [TC + n for n in CALL_THEOREMS] + ["RsslVerif.Thm.C09." + n for n in C09_CITED],
     "harness": "c02",
     "nontrivial": nontrivial,
     "finding_key": finding_key,
@@ -300,7 +322,20 @@ SPEC = {
             "`%=` programs: six accepted forms in one module (targets parameter / static / local, right operands arithmetic, ?:, the "
             "target itself) and five modules with a right operand that writes or a target that is no plain place (refused on floats, "
             "exported on integers) — the float `%=` of the Lean scalar model; C02.vex: 1 in 5 of the extra functions is a statement-level "
-            "`%=` on a float vector / swizzle (the Lean vector model)",
+            "`%=` on a float vector / swizzle (the Lean vector model). Calls with left-out default arguments (harness/src/c02/vgenc.rs, "
+            "programs 2000000.. of the C02.vfn stream + stream C02.call): one callee with 0-2 required parameters (optionally inout: out "
+            "trampoline) and 1-3 defaulted trailing parameters (defaults: literals, constant expressions, file-scope constants, the threaded "
+            "global itself) whose result weighs every parameter differently, and one caller per number of left-out arguments; enumerated: "
+            "call kind {obj.m(..) from outside on a local / inout parameter / array element / member of another struct, from another method "
+            "of the struct, free function at file scope or in a namespace, a call with left-out arguments as an argument of another} x global "
+            "class {static read and written, static only through a helper, static only named by a default value, groupshared, extern constant "
+            "buffer, none = control} x 1..3 defaults (72 programs), then random ones (60 quick / 1200 thorough). Both evaluators run the "
+            "static classes; in addition an ARITY ORACLE independent of both evaluators judges every exported module of the C02.vfn stream "
+            "(also groupshared / extern programs the typed evaluator cannot run): every emitted call `f(..)` / `o.f(..)` whose name is defined in "
+            "the module must have as many arguments as some declaration of that name binds (at most its parameters, every parameter beyond "
+            "them with a default value). C02.call sends every user call of these modules (call type, number of operands, which parameters "
+            "of the callee have a default value, number of parameters the emitted declaration has for globals) to the Lean model of "
+            "generate_user_call's argument list and compares the number of arguments of every emitted call",
     "level_text": "Proof of the logic of implicit threading: the usage fixpoint loop (modelled with explicit key iteration "
                   "order, explicit unwrap failures and fuel) is proved for every table to terminate within |keys|^2+1 passes "
                   "without panicking, to compute exactly reachability through the local-use relation independently of the "
@@ -382,7 +417,20 @@ SPEC = {
                   "every generated program by the harness round trip through the real printer (Target::Msl) and the real parser; "
                   "Thm/C02Text.right_nested_chain_regrouped_changes_meaning: the tree the model emits for x + (y + z) on floats means what the "
                   "IR means while the left-nested tree, which the text x + y + z of seeded mutant C02-4 denotes, evaluates differently under a "
-                  "non-associative interpretation of the float primitive (negation witness; the trees agree on ints).",
+                  "non-associative interpretation of the float primitive (negation witness; the trees agree on ints). "
+                  "Argument lists of calls (Thm/C02Call, model Model/MslCall, table Gen.MslCallTables re-extracted on every run): per arm of "
+                  "`match ct` in generate_user_call the table states which operand of the IR call is the first ARGUMENT (MethodExternal: operand 0 "
+                  "is the object) and how many parameters the loop that fills in the default values of left-out arguments skips, both relative "
+                  "to the operand list; user_call_arms_as_modelled (decide on the table) states that they agree in all three arms and that the "
+                  "list is built in the order arguments / defaults / globals; emitted_call_binds_every_parameter proves for every call type, every "
+                  "operand list, every list of parameter defaults and every non-empty list of globals, under the type checker's guarantees (no "
+                  "more arguments than parameters, every left-out parameter has a default): the emitted call exists (no slice panic), has exactly "
+                  "one argument per parameter of the emitted declaration (user parameters ++ parameters for globals), the i-th is the i-th provided "
+                  "argument or the i-th parameter's own default value, the globals follow; emitted_call_unchanged_without_globals: a callee without "
+                  "parameters for globals keeps its defaults and the call is emitted as written; object_counted_as_argument_drops_a_default: the "
+                  "table row of seeded mutant C02-6 (object counted as a provided argument) gives `a.scale(x)` the arguments `x, bias` — negation "
+                  "witness. WHAT each argument expression means is the business of gen_sem_* (scalar free functions) and of the two evaluators "
+                  "(methods): the call theorems speak about arrangement only.",
     "trusted_base": [
         "Lean 4.33 kernel; axioms propext / Classical.choice / Quot.sound only (audited by #print axioms)",
         "tools/gens/c02.py (UsageTables): match-arm/field inventory of gather_usage_*, regex shape facts about "
@@ -449,6 +497,12 @@ SPEC = {
         "the Lean VMsl.eval through the model answers of C02.vex, and with C01's IR evaluator on every C02.vfn case; function "
         "arguments are evaluated left to right (C++ leaves the order unspecified; the typed semantics is left to right): the alternative "
         "reading used to classify a difference evaluates the operands of metal::select in the source's order",
+        "tools/gens/c02.py (MslCallTables): the reader of generate_user_call — the arms of `match ct` (which slice of `exprs` is the "
+        "argument list: `exprs.as_slice()`, `&exprs[n..]`, handed out in the tuple or generated inside the arm), the count given to "
+        "`decl.params.iter().skip(..)` directly or through a helper that receives it (`arguments.len()`, `args.len()`, `exprs.len()`, "
+        "`exprs.len() - n`; anything else is an extraction failure), the order of the three list-building steps; Model/MslCall.lean is "
+        "tied to the code by this table and by stream C02.call (numbers of arguments only); arity oracle (vec.rs arity_failures): calls "
+        "and declarations are matched by the last component of the name, a call is accepted if ANY declaration of that name binds it",
         "text leg: the rssl parser is used as the reader of the emitted Metal text (function bodies of the subset are C-like; Metal and "
         "rssl agree on the precedence and associativity of the C operators, ?: and the comma — our reading of the MSL / C++14 grammar); "
         "harness/src/c09.rs statement_text_trip + C09's serialisation / ambiguity resolution (ser_stmt, resolve_stmt, align); C09's "
@@ -498,9 +552,14 @@ SPEC = {
         "is not a call of one library function (sign on ints, rcp only as `1 / x`) are skipped or read as stated above; initial "
         "values of threaded statics are taken from the IR evaluation (their initialisers are emitted by the entry wrapper, "
         "pipeline.rs, which verif_generate_ast does not run)",
+        "calls: emitted_call_binds_every_parameter assumes what the type checker guarantees for an accepted call (at most as many "
+        "arguments as parameters, every left-out parameter has a default value IN THE IR). The second half is false for a default value "
+        "given on a forward declaration whose definition follows: the typed IR has no value for it (known finding "
+        "default-value-of-forward-declaration-lost, found by the arity oracle: `hp(v, gp)` against `hp(int q, int d, thread int& gp)`)",
         "text leg: statements the rssl parser cannot read are outside the trip (today: the trampoline's `T out = f(...); return out;` — "
         "`out` is an rssl keyword — and braced struct lists `S { v, v }`; counted in the evidence's input distribution as "
-        "text:stmt:unreadable); signatures (`thread T& p`), struct and global declarations are covered by the tie (a) only; a literal "
+        "text:stmt:unreadable; also a statement in which the rssl reader sees a template call the tree does not have — `a < b ? x : c > (d)` is "
+        "read as `a<..>(d)` by rssl, as the comparison by C++, where a variable is never a template name: text:*:unreadable:template-ambiguity); signatures (`thread T& p`), struct and global declarations are covered by the tie (a) only; a literal "
         "with a negative value and the unary minus of its magnitude are one tree",
     ],
 }
